@@ -475,7 +475,13 @@ def finish(res, cfg):
         "wall_s": round(wall, 2),
         "violations": len(res.violations),
     }
-    with open(os.path.join(VERIF, "evidence", res.prop + ".json"), "w") as f:
+    # evidence/<id>.json describes runs against /repo itself; a run against another tree (VERIF_REPO:
+    # seeded changes, reversal experiments, snapshots) writes its evidence under build/ instead
+    evdir = os.path.join(VERIF, "evidence")
+    if os.path.abspath(REPO) != "/repo" and not os.environ.get("VP_RUN_REPO"):
+        evdir = os.path.join(BUILD, "evidence-altrepo")
+        os.makedirs(evdir, exist_ok=True)
+    with open(os.path.join(evdir, res.prop + ".json"), "w") as f:
         json.dump(ev, f, indent=1, sort_keys=True)
         f.write("\n")
     for sig, text in res.known:
